@@ -49,3 +49,39 @@ mutant("c06-dim-swap", "C06", "R6.4/RungeKutta::new_dyn", (RK, "dim: D::dim_dyn(
 mutant("c06-end-guard", "C06", "R6.1/Euler::with_ending_time", (IV, "            if *initial >= ending {\n                return Err(IVPError::TimeEndOOB);", "            if *initial > ending {\n                return Err(IVPError::TimeEndOOB);"))
 benign("c06-guard-rewrite", "C06", (RK, "if tol <= <Self::RealField as Zero>::zero() {", "if !(tol > <Self::RealField as Zero>::zero()) {"))
 benign("c06-iter-rewrite", "C06", (IV, "                Err(IE::Done) => break None,\n                Err(IE::Redo) => continue,", "                Err(IE::Redo) => continue,\n                Err(IE::Done) => break None,"))
+
+# ---- C03
+mutant("c03-rk45-transposed", "C03", "R3.1-explicit/ivp::rk::RKCoefficients45", (RK, "let two_one_nine_seven = Self::RealField::from_u16(2197)?;\n\n        Some(BSMatrix::from_row_slice(&[", "let two_one_nine_seven = Self::RealField::from_u16(2197)?;\n\n        Some(BSMatrix::from_column_slice(&["))
+mutant("c03-rk45-4014", "C03", "ivp::rk::RKCoefficients45", (RK, "from_u16(1859)? / Self::RealField::from_u16(4104)?", "from_u16(1859)? / Self::RealField::from_u16(4014)?"))
+mutant("c03-bs23-sign", "C03", "ivp::rk::RK23Coefficients::error_coefficients", (RK, "            -Self::RealField::from_u8(8)?.recip(),\n        ]))", "            Self::RealField::from_u8(8)?.recip(),\n        ]))"))
+mutant("c03-rk45-c", "C03", "R3.1-rowsum/ivp::rk::RKCoefficients45", (RK, "            three / eight,\n", "            eight / three,\n"))
+mutant("c03-rk-rowiter", "C03", "R3.1", (RK, "self.k_coefficients.row_iter().enumerate()", "self.k_coefficients.column_iter().enumerate()"))
+mutant("c03-rk4-half", "C03", "R3.2/ivp::adams::AdamsSolver::runge_kutta", (AD, "let intermediate = &self.state + &k3;", "let intermediate = &self.state + &k3 * self.half;"))
+mutant("c03-adams-index", "C03", "R3.3-predictor", (AD, "self.predictor_coefficients[O - i - 2]", "self.predictor_coefficients[O - i - 1]"))
+mutant("c03-adams-digit", "C03", "R3.3-corrector/ivp::adams::AdamsCoefficients5", (AD, "from_u16(646)?", "from_u16(664)?"))
+mutant("c03-adams-implicit-time", "C03", "R3.3/ivp::adams::AdamsCoefficients5/implicit-time", (AD, "            self.time.real() + self.dt.real(),\n            predictor.as_slice(),", "            self.time.real(),\n            predictor.as_slice(),"))
+mutant("c03-adams-lag", "C03", "R3.6", (AD, "                self.prev_derivatives\n                    .push_back(self.implicit_derivs.clone());\n                self.prev_derivatives.pop_front();\n                return Err(IVPStatus::Redo);", "                return Err(IVPStatus::Redo);"))
+mutant("c03-bdf-digit", "C03", "R3.4-formula/ivp::bdf::BDF6Coefficients::higher_coefficients", (BD, "Self::RealField::from_u16(450)? / one_hundred_forty_seven.clone()", "Self::RealField::from_u16(540)? / one_hundred_forty_seven.clone()"))
+mutant("c03-bdf-lower", "C03", "R3.4-formula", (BD, "for (ind, &coeff) in bdf.lower_coefficients.column(0)", "for (ind, &coeff) in bdf.higher_coefficients.column(0)"))
+mutant("c03-bdf-time", "C03", "R3.4-time/BDFSolver::secant", (BD, "            derivative = g(\n                self,\n                (self.time + self.dt).real(),", "            derivative = g(\n                self,\n                self.time.real(),"))
+mutant("c03-bdf-jac", "C03", "R3.5/", (BD, "((above - below) * denom)", "((above + below) * denom)"))
+mutant("c03-bdf-hist-index", "C03", "R3.4", (BD, "bdf.higher_coefficients[0];\n            for (ind, &coeff) in bdf.higher_coefficients.column(0).iter().enumerate().skip(1) {\n                bdf.scratch_pad += &bdf.prev_values[O - ind].1 * coeff;", "bdf.higher_coefficients[0];\n            for (ind, &coeff) in bdf.higher_coefficients.column(0).iter().enumerate().skip(1) {\n                bdf.scratch_pad += &bdf.prev_values[O - ind - 1].1 * coeff;"))
+mutant("c03-euler-pair", "C03", "R3.7/EulerSolver::step/yields-pre-update-pair", (IV, "Ok((old_time, old_state))", "Ok((self.time.real(), old_state))"))
+benign("c03-rk4-refactor", "C03", (AD, "self.state += (k1 + k2 * self.two + k3 * self.two + k4) * self.one_sixth;", "self.state += (k1 + (k2 + k3) * self.two + k4) * self.one_sixth;"))
+benign("c03-bs23-refactor", "C03", (RK, "            -Self::RealField::from_u8(5)? / Self::RealField::from_u8(72)?,\n            Self::RealField::from_u8(12)?.recip(),", "            -(Self::RealField::from_u8(10)? / Self::RealField::from_u8(144)?),\n            Self::RealField::from_u8(2)? / Self::RealField::from_u8(24)?,"))
+
+# ---- C01
+mutant("c01-clamp-flip", "C01", "R1.3/RungeKuttaSolver::step", (RK, "if self.dt.real() > self.dt_max.real() {", "if self.dt.real() < self.dt_max.real() {"))
+mutant("c01-clamp-removed", "C01", "R1.3/BDFSolver::step/grow-then-clamp", (BD, "                self.dt *= self.two;\n                if self.dt.real() > self.dt_max.real() {\n                    self.dt = self.dt_max;\n                }\n", "                self.dt *= self.two;\n"))
+mutant("c01-grow-after-clamp", "C01", "R1.3/AdamsSolver::step/grow-then-clamp", (AD, "                if self.dt.real() > self.dt_max.real() {\n                    self.dt = self.dt_max;\n                }\n\n                // Clear the saved steps", "                if self.dt.real() > self.dt_max.real() {\n                    self.dt = self.dt_max;\n                }\n                self.dt *= self.two;\n\n                // Clear the saved steps"))
+mutant("c01-clip-wrong-m", "C01", "R1.", (AD, "self.dt = (self.end - self.time) / (self.order - Self::Field::one());", "self.dt = (self.end - self.time) / (self.order - self.two);"))
+mutant("c01-end-test-late", "C01", "R1.2a/RungeKuttaSolver::step", (RK, "        if self.time.real() >= self.end.real() {\n            return Err(IVPStatus::Done);\n        }\n\n        if self.time.real() + self.dt.real() >= self.end.real() {\n            self.dt = self.end - self.time;\n        }\n", "        if self.time.real() + self.dt.real() >= self.end.real() {\n            self.dt = self.end - self.time;\n        }\n"))
+mutant("c01-rk-no-clip", "C01", "R1.2b/RungeKuttaSolver::step", (RK, "        if self.time.real() + self.dt.real() >= self.end.real() {\n            self.dt = self.end - self.time;\n        }\n\n        for (i, k_row)", "        for (i, k_row)"))
+mutant("c01-sentinel-off-by-one", "C01", "R1.4", (AD, "                self.yield_memory = O + 1;\n            }\n            return Ok(self.prev_values[get_item].clone());", "                self.yield_memory = O + 2;\n            }\n            return Ok(self.prev_values[get_item].clone());"))
+mutant("c01-get-item-off", "C01", "R1.4-T", (BD, "let get_item = O - self.yield_memory;", "let get_item = O - self.yield_memory + 1;"))
+mutant("c01-bdf-rollback", "C01", "R1.4-T3", (BD, "self.time -= self.dt * self.order;", "self.time -= self.dt * (self.order - self.two);"))
+mutant("c01-adams-rollback-no-restore", "C01", "R1.4", (AD, "            self.time -= self.dt * (self.order - Self::Field::one());\n            self.state = self.save_state.clone();", "            self.time -= self.dt * (self.order - Self::Field::one());"))
+mutant("c01-yield-old-time", "C01", "R1.", (BD, "            self.prev_values.pop_front();\n            return Ok((self.time.real(), self.state.clone()));\n        }\n\n        if self.time.real() >= self.end.real() {", "            let stale = self.prev_values.pop_front().unwrap();\n            return Ok((stale.0, self.state.clone()));\n        }\n\n        if self.time.real() >= self.end.real() {"))
+mutant("c01-initial-dt", "C01", "R1.3/Adams::solve/initial-dt-convex", (AD, "dt: Self::Field::from_real(dt_max + dt_min) * half,", "dt: Self::Field::from_real(dt_max + dt_min),"))
+benign("c01-clamp-min", "C01", (BD, "                if self.dt.real() > self.dt_max.real() {\n                    self.dt = self.dt_max;\n                }\n", "                if self.dt.real() >= self.dt_max.real() {\n                    self.dt = self.dt_max;\n                }\n"))
+mutant("c03-adams-lag2", "C03", "R3.6", (AD, "                self.prev_derivatives\n                    .push_back(self.implicit_derivs.clone());\n                self.prev_derivatives.pop_front();\n                return Err(IVPStatus::Redo);", "                return Err(IVPStatus::Redo);"))
